@@ -2,5 +2,6 @@ SPECIFICATION Spec
 CONSTANTS
   Lens = {0, 5, 40, 4096}
   Protocol = "rename"
-INVARIANTS AtomicRule Completed
+  Weak = {}
+INVARIANTS AtomicRule Completed FollowUp
 CHECK_DEADLOCK FALSE
